@@ -3,9 +3,9 @@
 __CPROVER_requires(__CPROVER_is_fresh(self, sizeof(*self)) && __CPROVER_is_fresh(data, sizeof(*data)))
 __CPROVER_requires(data->size <= STRMAX && __CPROVER_is_fresh(data->data, STRMAX + 1))
 /* the modulus of an IMPORTED key is arbitrary (any size, also zero or negative) */
-__CPROVER_requires(UF(bits)(V(self->m)) < ((unsigned long)1 << 32))
+__CPROVER_requires(UF(bits)(V(self->m)) < ((unsigned long)1 << 32) && g_exp_buf.obj == 0 && g_exp_written == 0 && ghost_zeroed_n == 0)
 __CPROVER_requires(g_ncpy == 0 && g_ncmp == 0)
-__CPROVER_assigns(PARSE_ASSIGNS, PRAB_MONITOR)
+__CPROVER_assigns(PARSE_ASSIGNS, PRAB_MONITOR, ZEROED_STATE)
 /* C12: for every key and every signature text the check ends with a verdict -- the obligations are the
  * memory-safety checks and the asserted preconditions of the dependencies (mpz_mod modulus, mpz_export and
  * memcpy buffer sizes) inside the body */
@@ -36,8 +36,8 @@ __CPROVER_decreases(20 - i)
 //@ function TMCG_SecretKey__decrypt
 //@ contract
 __CPROVER_requires(__CPROVER_is_fresh(self, sizeof(*self)) && __CPROVER_is_fresh(value, TMCG_SAEP_S0))
-__CPROVER_requires(UF(bits)(V(self->m)) < ((unsigned long)1 << 32))
-__CPROVER_assigns(PARSE_ASSIGNS, PRAB_MONITOR, __CPROVER_object_whole(value))
+__CPROVER_requires(UF(bits)(V(self->m)) < ((unsigned long)1 << 32) && g_exp_buf.obj == 0 && g_exp_written == 0 && ghost_zeroed_n == 0)
+__CPROVER_assigns(PARSE_ASSIGNS, PRAB_MONITOR, ZEROED_STATE, __CPROVER_object_whole(value))
 /* C12: memory safe for every ciphertext text and every key size (obligations inside the body) */
 __CPROVER_ensures(__CPROVER_return_value == 0 || __CPROVER_return_value == 1)
 /* C10 (structure of SAEP decryption): a plaintext is delivered only if the redundancy check was made and passed --
@@ -62,7 +62,7 @@ __CPROVER_decreases(rabin_s2 - i)
 //@ function TMCG_PublicKey__check
 //@ contract
 __CPROVER_requires(__CPROVER_is_fresh(self, sizeof(*self)))
-__CPROVER_requires(UF(bits)(V(self->m)) < ((unsigned long)1 << 32))
+__CPROVER_requires(UF(bits)(V(self->m)) < ((unsigned long)1 << 32) && g_exp_buf.obj == 0 && g_exp_written == 0 && ghost_zeroed_n == 0)
 __CPROVER_requires(ghost_vfy_calls == 0 && strtoul_calls == 0)
 __CPROVER_assigns(PARSE_ASSIGNS, CHECK_MONITOR, ev_n, g_g_out, g_g_osize, g_g_in, g_g_isize)
 /* C12: memory safe, no division by a zero modulus, for every key (obligations in the body).
